@@ -30,6 +30,7 @@ LEVEL_TEXT = ("Theorems over the scheduler bookkeeping for all wakeup maps and h
               "sequence (times, roots) of generated flat/nested simulations with periodic, one-shot, re-planned and simultaneous callbacks and "
               "interrupts compared with the Lean whole-simulation model, plus a device-level monitor (requested callback served at exactly that time "
               "unless updated earlier). FOR ANY ANSWER ORDER AT EVERY NESTING LEVEL (every scheduler level answers its pending dispatches in ANY order, a system component's answer is any such execution of its inner level; Core/SimAny; none of these corollaries assumes that the first-in first-out model succeeds - that follows from the existence of the execution) (Props/AnyTransfer, AnyTransferC06): a system component reports the tick time while interrupts are queued and otherwise exactly the minimum of its inner wakeups (any_order_system_callback_is_min), the inner roots are exactly the entries due at the tick's time (any_order_nestedDue_exact), at every depth of every run a system's callback at its parent is the minimum of its inner wakeups and the next master tick is the minimum device callback (any_order_run_schedOK, any_order_next_tick_is_min_device_callback), and every any-order run refines a FlatRun whose wakeups are the devices' own entries (any_order_run_refines_flatRun_wake, any_order_last_tick_requested). Not transferred: the run-level continuation theorems (callback_exact, callback_never_overtaken, callback_eventually_served) are stated for the flat system only.")
+LEVEL_ADDENDUM = 'Session 8: get_first_wakeups depends only on the ORDER of the times (Props/C06Order: it commutes with every strictly increasing re-labelling - scale, epoch shift; a request later than the earliest by however little is not served with it); the wakeups differential and the scenario family use nearly equal large times (seconds to hours, a few ns apart).'
 LEVEL_NOTE = "Trusts: Lean kernel; hand-written bookkeeping model; whole-simulation comparison uses zero processing cost."
 ASSUMPTIONS = ["liveness: callbacks are requested strictly in the future (otherwise a device can keep the simulation at one instant forever)",
                "whole-simulation model comparison uses zero processing cost; histories with real-time cost are checked by monitors"]
